@@ -23,11 +23,35 @@ MANIFEST = dict(
           "boolean/integer decisions of the model are regenerated from the source on every run; the extracted model is "
           "compared with the real library: bit-exactly on integer-valued problems and for the whole outer loop observed "
           "through the NANO_VERIF hooks, within 1e-11 of the summed magnitudes on random doubles; independent long-double "
-          "oracles in the harness produce the concrete failing input."),
+          "oracles in the harness produce the concrete failing input. "
+          "EXTENSION (C05_Outer): the complete outer loop of the augmented-Lagrangian solver is inside the model -- make_ro1 "
+          "with its clamps, ::nano::converged, the multiplier updates clamp(lambda + ro h), clamp(max(0, miu + ro g)), the ro "
+          "rule, the multipliers stored in the best state; nothing but the inner solver's answers is an input (refinement "
+          "theorem onto the loop above). Proved for every history: 0 <= miu <= miu_max, lambda within its box (or still the "
+          "zero start), sizes, for every rounding; ro_1 in [1e-6, 10] and ro = ro_1 gamma^k > 0; the first-order identity "
+          "grad L_A(x; ro, lambda, miu) = grad L(x; lambda + ro h, max(0, miu + ro g)) for every x (L accumulated as "
+          "update_constraints does); the KKT theorem of a `converged` run (stationarity transfer, primal feasibility, miu+ >= 0, "
+          "approximate complementarity |max(g_i, -miu_i/ro)| <= eps from the criterion of the iteration that produced the best "
+          "state); the next multipliers are the projections of the un-clamped ones onto the boxes (what the clamps cost). "
+          "Penalty solvers (solver_penalty_t::minimize, linear + quadratic): outer loop modelled over the inner "
+          "solver's answers and the ORIGINAL function's evaluation; proved: the returned state is the original function's "
+          "state at the start or at a usable inner solution, done()'s status facts, penalty of the k-th solve = penalty0 eta^k "
+          "also across the `continue` branch, at most max_outer_iters solves; exactness of the linear penalty and "
+          "Fiacco-McCormick monotonicity of the quadratic penalty over Q; `converged` of a penalty solver does NOT imply "
+          "feasibility (refuted with a witness; reproduced on the real solvers, counted per run). Tie: the driver recomputes "
+          "ro_1 (exact when clamped, 1e-12 otherwise), every iteration's lambda / miu (read from the penalty object the inner "
+          "solver minimises) and the dx flag bit-exactly, the penalty solvers' penalty sequence / decisions / returned state; "
+          "direct oracles: multiplier ranges in every event, gradient identity on the library's own gradient, KKT residuals of "
+          "converged runs recomputed from the problem, penalty sequence and done() decisions of the penalty solvers."),
     note=("Coq kernel; translator (13 decision kernels of penalty.cpp, constraint.cpp, augmented.cpp, solver.cpp); extraction "
           "with ExtrOcamlZBigInt (Zarith); harness against the library built from the working tree (hooks ev_al_outer, "
           "ev_solver_done, ev_solver_exit) + OCaml driver; float rounding of the penalty values is outside the theorems "
-          "(searched with a tolerance); inner solver, make_ro1 and the eigenvalue test nano::convex(P) are oracles."),
+          "(searched with a tolerance); inner solver and the eigenvalue test nano::convex(P) are oracles. Extension: 4 more kernels "
+          "(solver/penalty.cpp loop bound, `!iter_ok` skip, converged expression; state.cpp ::nano::converged); the harness reads solver_state_t::m_meq/m_mineq "
+          "through an explicit-instantiation accessor and augmented_lagrangian_function_t's reference members m_lambda/m_miu "
+          "through the object layout (static_assert on the size + cross-check with the multipliers stored in the best state); "
+          "the penalty solvers' loop is observed through done() events + penalty_function_t::penalty(); make_ro1's dot "
+          "products and the inner precision (more_precise) are not tied bit-exactly."),
     technique="Coq proof over Q of a translated+extracted model, differential correspondence (bit-exact where the double "
               "arithmetic is exact), direct property oracles on the implementation",
     design="DESIGN.md section 2, C05")
@@ -35,7 +59,8 @@ MANIFEST = dict(
 VARIANTS = ["rel"]
 
 # (chunks, PEN cases per chunk, AL runs per chunk); the chunk id perturbs the seed
-CHUNKS = {"quick": (3, 2500, 400), "thorough": (40, 4000, 800)}
+CHUNKS = {"quick": (3, 2500, 400, 300), "thorough": (40, 4000, 800, 600)}
+OPS = ("PEN ", "STATE ", "AL ", "ALIT ", "ALEND ", "ALO ", "ALOIT ", "ALOEND ", "PS ", "PSIT ", "PSEND ")
 STATUS = {"0": "max_iters", "1": "converged", "2": "failed", "3": "unfeasible", "4": "unbounded"}
 
 
@@ -77,7 +102,7 @@ def setup():
 
 def _case_cmd(seed, exe, cid):
     """p<chunk>.<index>[.suffix] / a<chunk>.<index> -> command re-running that single case"""
-    what = "pen" if cid.startswith("p") else "al"
+    what = "pen" if cid.startswith("p") else ("ps" if cid.startswith("s") else "al")
     parts = cid[1:].split(".")
     return "VERIF_SEED=%d %s case %s %s %s" % (seed, exe, what, parts[1], parts[0])
 
@@ -105,7 +130,7 @@ def run(tier, replay=None):
     r = vlib.Run("C05", tier)
     cres = vlib.coq_check("C05", targets=["theories/Extract_C05.vo", "theories/Properties_C05.vo"])
     exe = vlib.build_harness("c05_penalty", "rel", need_lib=True)
-    nchunks, npen, nal = CHUNKS.get(tier, CHUNKS["quick"])
+    nchunks, npen, nal, nps = CHUNKS.get(tier, CHUNKS["quick"])
     drv = None
     try:
         drv = _build_driver()
@@ -121,18 +146,18 @@ def run(tier, replay=None):
     model_stats = collections.Counter()
     byid = {}
     for ch in range(nchunks):
-        cmd = "VERIF_SEED=%d %s %s %d %d %d" % (r.seed, exe, tier, npen, nal, ch)
-        rc, out = vlib.sh([exe, tier, str(npen), str(nal), str(ch)], timeout=3000, env={"VERIF_SEED": str(r.seed)})
+        cmd = "VERIF_SEED=%d %s %s %d %d %d %d" % (r.seed, exe, tier, npen, nal, ch, nps)
+        rc, out = vlib.sh([exe, tier, str(npen), str(nal), str(ch), str(nps)], timeout=3000, env={"VERIF_SEED": str(r.seed)})
         lines = [l for l in out.split("\n") if l]
         del out
         done = [l for l in lines if l.startswith("DONE ")]
-        oplines = [l for l in lines if l.startswith(("PEN ", "STATE ", "AL ", "ALIT ", "ALEND "))]
+        oplines = [l for l in lines if l.startswith(OPS)]
         for l in lines:
             op = l.split(" ", 1)[0]
-            if op in ("PEN", "STATE", "AL", "ALIT", "ALEND", "FAIL"):
+            if op in ("PEN", "STATE", "AL", "ALIT", "ALEND", "FAIL", "ALO", "ALOIT", "ALOEND", "PS", "PSIT", "PSEND"):
                 ops[op] += 1
         impl_fail += [l for l in lines if l.startswith("FAIL ")]
-        evaluations += sum(1 for l in oplines if l.startswith(("PEN ", "STATE ", "AL ")))
+        evaluations += sum(1 for l in oplines if l.startswith(("PEN ", "STATE ", "AL ", "PS ")))
         if rc != 0 or not done:
             r.violation("crash", {"kind": "implementation-crash / exception in the harness", "exit": rc, "mode": tier,
                                   "last_operations": [l[:800] for l in oplines][-4:],
@@ -150,7 +175,7 @@ def run(tier, replay=None):
                 f = l.split(" | ")
                 if f[5].strip() != "-":   # at least one constraint
                     distinct.add(hash(l.split(" = ")[0].split(" ", 2)[2]))
-            elif l.startswith("ALEND ") and not l.rstrip().endswith("| 0"):
+            elif l.startswith(("ALEND ", "PSEND ")) and not l.rstrip().endswith("| 0"):
                 distinct.add(hash(l.split(" ", 2)[2]))
         if not samples:
             samples = ([l[:700] for l in lines if l.startswith("PEN ") and " X " in l[:24] and 150 < len(l) < 700][:2] +
@@ -158,7 +183,10 @@ def run(tier, replay=None):
                        [l[:500] for l in lines if l.startswith("STATE ") and len(l) < 500][:1] +
                        [l[:600] for l in lines if l.startswith("AL ") and len(l) < 600][:1] +
                        [l[:500] for l in lines if l.startswith("ALIT ") and len(l) < 500][:2] +
-                       [l[:400] for l in lines if l.startswith("ALEND ") and len(l) < 400][:1]) or [l[:400] for l in lines[:3]]
+                       [l[:400] for l in lines if l.startswith("ALEND ") and len(l) < 400][:1] +
+                       [l[:300] for l in lines if l.startswith("ALOIT ") and len(l) < 300 and "p" in l.split("|", 1)[1]][:1] +
+                       [l[:600] for l in lines if l.startswith("PS ") and len(l) < 600][:1] +
+                       [l[:400] for l in lines if l.startswith("PSIT ") and len(l) < 400][:2]) or [l[:400] for l in lines[:3]]
         if drv:
             feed = "\n".join(oplines) + "\n"
             rc2, mout = vlib.sh([drv], input=feed, timeout=3000)
@@ -213,7 +241,11 @@ def run(tier, replay=None):
                     no_input=not concrete and not impl_fail)
     vlib.handle_coq_failure(r, cres)
     vlib.proof_coverage(r, cres, "make -C coq theories/Properties_C05.vo && coqc theories/Properties_C05.v (Print Assumptions)",
-                        ["tools/translate.py (13 decision kernels of penalty.cpp / constraint.cpp / augmented.cpp / solver.cpp)",
+                        ["tools/translate.py (17 decision kernels of penalty.cpp / constraint.cpp / augmented.cpp / solver.cpp / "
+                         "solver/penalty.cpp)",
+                         "harness accessors: solver_state_t::m_meq/m_mineq (explicit template instantiation), "
+                         "augmented_lagrangian_function_t::m_lambda/m_miu (object layout, size-checked, cross-checked against the "
+                         "multipliers stored in the best state)",
                          "extraction: ExtrOcamlBasic + ExtrOcamlZBigInt (positive/Z mapped to Zarith big integers)",
                          "ocaml/c05_driver.ml (exact double->Q conversion, IEEE instantiation of the rounded operations, tolerances), "
                          "harness/c05_penalty.cpp, g++ -O2",
@@ -230,7 +262,10 @@ def run(tier, replay=None):
                    "QPs/LPs via program::make_* + make_function, box/ball/quadratic/functional/mixed constraints on a convex "
                    "quadratic, 5% infeasible, eps log-uniform 1e-10..1e-4, 25% randomised tau/gamma/miu_max/lambda range/"
                    "max_outer_iters/epsilon0, 20% small max_evals, x0 random / feasible reference / far away; everything derived "
-                   "from VERIF_SEED. distinct_nontrivial = distinct PEN inputs with at least one constraint + distinct solver "
+                   "from VERIF_SEED. PS (extension): the same problem generator (+ 20% objectives with a restricted domain, NaN "
+                   "outside a box, so that inner solves return invalid states: `continue` branch), linear (1/3) or quadratic "
+                   "(2/3) penalty solver, eps log-uniform 1e-9..1e-4, 1/3 randomised eta / penalty0 / epsilonK / max_outer_iters / "
+                   "epsilon0, small max_evals for non-smooth problems. distinct_nontrivial = distinct PEN inputs with at least one constraint + distinct solver "
                    "runs with at least one outer iteration")
     cov["op_histogram"] = dict(ops)
     cov["chunks"] = nchunks
@@ -240,8 +275,16 @@ def run(tier, replay=None):
     cov["objective_histogram"] = {k[10:]: v for k, v in counters.items() if k.startswith("objective:")}
     cov["al_family_histogram"] = {k[10:]: v for k, v in counters.items() if k.startswith("al-family:")}
     cov["al_status_histogram"] = {STATUS.get(k[10:], k[10:]): v for k, v in counters.items() if k.startswith("al-status:")}
+    cov["ps_family_histogram"] = {k[10:]: v for k, v in counters.items() if k.startswith("ps-family:")}
+    cov["ps_solver_histogram"] = {k[10:]: v for k, v in counters.items() if k.startswith("ps-solver:")}
+    cov["ps_status_histogram"] = {STATUS.get(k[10:], k[10:]): v for k, v in counters.items() if k.startswith("ps-status:")}
+    # NOT a violation (the property speaks about the augmented-Lagrangian solver only): penalty solvers that report
+    # `converged` with a constraint violation above epsilon
+    cov["ps_converged_infeasible"] = {k[24:]: v for k, v in counters.items() if k.startswith("ps-converged-infeasible:")}
     for k in ("feasible", "feasible-zero-mult", "al-boundary", "al-converged", "al-outer-iterations", "al-inner-done-events",
-              "convex-flag-checked"):
+              "convex-flag-checked", "alo-events", "alo-gradient-identity-checked", "alo-next-multipliers-checked", "alo-kkt-checked", "ps-converged",
+              "ps-outer-iterations", "ps-skipped-iterations", "ps-inner-done-events",
+              "ps-converged-infeasible-on-feasible-problem"):
         cov[k.replace("-", "_")] = counters.get(k, 0)
     cov["model_stats"] = dict(model_stats)
     cov["mismatches"] = len(mism)
@@ -254,10 +297,15 @@ def run(tier, replay=None):
         "the eigenvalue test nano::convex(P) and function_t::convex() really mean convexity (hypotheses of C05_convex_flag)",
         "solver_state_t::update_if_better keeps ceq/cineq in step with the stored point (implementation-side check)",
         "value-only evaluation (no gradient buffer) returns the same value (implementation-side check)",
-        "make_function(program) registers exactly the program's constraints (implementation-side check)"]
+        "make_function(program) registers exactly the program's constraints (implementation-side check)",
+        "extension: make_ro1's Eigen dot products (1e-12 relative unless clamped), floating-point KKT residuals of converged "
+        "runs (1e-9 of the summed magnitudes; the theorems are over Q), stationarity bound with the RETURNED (old) "
+        "multipliers kkt5 <= |grad L_A|_inf + ro criterion sum|grad c| (direct oracle only)",
+        "extension: the inner solver's precision schedule (more_precise) of both outer loops is modelled / proved but not "
+        "observable without a hook"]
     cov["not_reached"] = ["non-finite values inside the outer loop (the exact-rational model skips such runs; counted in "
-                          "model_stats.skipped_nonfinite)", "solver_penalty_t (linear/quadratic penalty solvers): only their "
-                          "penalty functions are covered, the property's convergence clause is about the augmented Lagrangian",
+                          "model_stats.skipped_nonfinite)", "penalty solvers: status `failed` of the outer loop (needs a usable inner solution at which the "
+                          "ORIGINAL function is not finite: impossible for a penalty function that adds to it)",
                           "quadratic constraints with a non-symmetric P (the library's gradient P x + q is then not the derivative: "
                           "see notes/C05.md)"]
     r.assumptions = ["no FMA contraction / x87 excess precision in the library build (x86-64 SSE2, as built here)",
